@@ -3,7 +3,7 @@ from checks import krill_common as kc
 
 PID = "C02"
 LEVEL = "model_checking"
-THEMES = "chain,roll,multi".split(",")
+THEMES = "chain,roll,multi,mix".split(",")
 NEEDED = "ChildRes,Settled".split(",")
 
 RULE = (
@@ -59,7 +59,7 @@ def run(tier, seed):
         assumptions=kc.COMMON_ASSUMPTIONS, rule=RULE, needed_events=NEEDED,
         mc_cfgs=(['MC_Krill_q_chain.cfg', 'MC_Krill_q_life.cfg', 'MC_Krill_q_multi.cfg'] if tier == "quick" else ['MC_Krill_q_chain.cfg', 'MC_Krill_q_life.cfg', 'MC_Krill_q_multi.cfg', 'MC_Krill_chain.cfg', 'MC_Krill_life.cfg']),
         directed=DIRECTED + kc.MULTI_DIRECTED[:1],
-        theme_nums={"multi": (6, 80)})
+        theme_nums={"multi": (6, 80), "mix": (4, 60)})
 
 
 def replay(path, seed):
